@@ -35,7 +35,7 @@ type mNodeC42 struct {
 
 type mTreeC42 struct {
 	Nodes   []mNodeC42 `json:"nodes"`
-	Bad     string     `json:"bad,omitempty"` // garbage|malformed|truncated|no-nodes-key|nodes-null|empty
+	Bad     string     `json:"bad,omitempty"` // garbage|malformed|truncated|truncated-clean|no-nodes-key|nodes-null|empty
 	BadAt   int        `json:"bad_at,omitempty"`
 	Missing bool       `json:"missing,omitempty"`
 	Huge    bool       `json:"huge,omitempty"`
@@ -96,7 +96,7 @@ func genCaseC42(t *rapid.T) *mCaseC42 {
 			if rapid.Bool().Draw(t, "missing") {
 				tr.Missing = true
 			} else {
-				tr.Bad = rapid.SampledFrom([]string{"garbage", "malformed", "malformed", "truncated", "no-nodes-key", "nodes-null", "empty"}).Draw(t, "badkind")
+				tr.Bad = rapid.SampledFrom([]string{"garbage", "malformed", "malformed", "truncated", "truncated-clean", "no-nodes-key", "nodes-null", "empty"}).Draw(t, "badkind")
 				tr.BadAt = rapid.IntRange(0, len(tr.Nodes)).Draw(t, "badat")
 			}
 		}
@@ -220,6 +220,8 @@ func buildC42(c *mCaseC42) (*vLoaderC42, []restic.ID) {
 		case "truncated":
 			full := pre + list(nodes) + post
 			buf = []byte(full[:len(pre)+len(list(nodes[:at]))] + fmt.Sprintf(`,{"name":"cut%d`, i))
+		case "truncated-clean": // ends at a token boundary: after a complete node, or right after "["
+			buf = []byte(pre + list(nodes[:at]) + strings.Repeat(" ", i))
 		case "no-nodes-key":
 			buf = []byte(fmt.Sprintf(`{"foo":%d}`, i))
 		case "nodes-null":
@@ -251,7 +253,7 @@ func (c *mCaseC42) childrenC42(i int) (subs []int, blobs []int) {
 	tr := c.Trees[i]
 	nodes := tr.Nodes
 	switch tr.Bad {
-	case "malformed", "truncated":
+	case "malformed", "truncated", "truncated-clean":
 		nodes = nodes[:min(tr.BadAt, len(nodes))]
 	case "":
 	default:
@@ -497,6 +499,12 @@ func TestVerifC42Traverse(t *testing.T) {
 			st.Sample(map[string]any{"case": c, "classes": labels})
 		}
 		if msg != "" {
+			for _, tr := range c.Trees {
+				// finding: JSON that ends early at a token boundary is taken for a complete tree
+				if tr.Bad == "truncated-clean" && st.Known("C42:truncated-tree-json-accepted") {
+					return
+				}
+			}
 			rt.Fatalf("%s\ncase: %s", msg, js)
 		}
 	})
